@@ -36,9 +36,9 @@ Record module := mkMod {
 }.
 
 Inductive package :=
-| PkgMissing                       (* import_module(pkg) raises ImportError naming the package (or its top-level parent) *)
-| PkgInitFails                     (* import_module(pkg) raises anything else: an ImportError naming
-                                      another module, or any Exception out of the package's own code *)
+| PkgMissing                       (* import_module(pkg) raises ModuleNotFoundError naming the package or a package it is nested in *)
+| PkgInitFails                     (* import_module(pkg) raises anything else: another ImportError, a missing
+                                      other module, or any Exception out of the package's own code *)
 | PkgPresent (mods : list module). (* glob order *)
 
 (* an instance of a mode class: where it came from *)
@@ -214,37 +214,32 @@ Definition discover (fms : bool) (p : package) : outcome :=
   end.
 
 (* ------------------------------------------------------------------ *)
-(* The import of the package itself (selector.py:91-107)               *)
+(* The import of the package itself (selector.py:91-112)               *)
 
 (* what importlib.import_module(autonomous_pkgname) does -- as observed *)
 Inductive pkg_import :=
-| ImportRaisesImportError (ename : option string)  (* ImportError (ModuleNotFoundError included); e.name *)
-| ImportRaisesOther                                (* any other Exception out of the package's code *)
-| Imported (mods : list module).                   (* the package object; glob order of its *.py *)
+| ImportRaisesImportError (mnf : bool) (ename : option string)
+                                   (* an ImportError e; mnf = isinstance(e, ModuleNotFoundError); e.name *)
+| ImportRaisesOther                (* any other Exception out of the package's code *)
+| Imported (mods : list module).   (* the package object; glob order of its *.py *)
 
-(* autonomous_pkgname.split(".")[0] *)
-Fixpoint top_component (s : string) : string :=
-  match s with
-  | EmptyString => EmptyString
-  | String c r => if Ascii.eqb c "."%char then EmptyString else String c (top_component r)
-  end.
-
-(* e.name in [autonomous_pkgname, autonomous_pkgname.split(".")[0]]
-   (e.name is None for an ImportError raised without a name: in no list of str) *)
-Definition names_the_package (pkgname : string) (ename : option string) : bool :=
+(* isinstance(e, ModuleNotFoundError) and e.name is not None
+   and (autonomous_pkgname + ".").startswith(e.name + ".") *)
+Definition names_the_package (pkgname : string) (mnf : bool) (ename : option string) : bool :=
+  mnf &&
   match ename with
-  | Some n => (n =? pkgname) || (n =? top_component pkgname)
+  | Some n => prefix (n ++ ".")%string (pkgname ++ ".")%string
   | None => false
   end.
 
 (* try: import_module(pkgname)
-   except ImportError as e: if e.name not in [...]: <policy of a failing import>; else warning only
+   except ImportError as e: if not isinstance(..) or not (..): <policy of a failing import>; else warning only
    except Exception: <policy of a failing import>
    else: glob *)
 Definition import_outcome (pkgname : string) (i : pkg_import) : package :=
   match i with
-  | ImportRaisesImportError ename =>
-    if names_the_package pkgname ename then PkgMissing else PkgInitFails
+  | ImportRaisesImportError mnf ename =>
+    if names_the_package pkgname mnf ename then PkgMissing else PkgInitFails
   | ImportRaisesOther => PkgInitFails
   | Imported ms => PkgPresent ms
   end.
